@@ -30,11 +30,11 @@ Theorem C19_no_failure_json_partial : forall e g root,
 Proof. exact no_failure_json. Qed.
 Print Assumptions C19_no_failure_json_partial.
 
-(* pickle: the wrapper of individually picklable parts is picklable, and (excluded region 3, `mro_exceptions`)
-   no non-exception mixin stands in the MRO in front of Exception and can be rebuilt from the args - otherwise
-   find_pickleable_exception returns a mixin instance (refuted below) *)
+(* pickle: the only hypothesis is that the wrapper built from individually picklable parts is picklable (measured
+   true on every case).  The former third excluded region - a non-exception mixin in the MRO, finding D10 - was
+   repaired in /repo (743840e); the defective variant and its witness are in coq/findings/FindingsExcSer.v *)
 Theorem C19_no_failure_pickle_partial : forall g root,
-  wf g -> root < length g -> wrappable g -> mro_exceptions g -> exists t, roundtrip EPickle g root = OLoaded t.
+  wf g -> root < length g -> wrappable g -> exists t, roundtrip EPickle g root = OLoaded t.
 Proof. exact no_failure_pickle. Qed.
 Print Assumptions C19_no_failure_pickle_partial.
 
@@ -64,19 +64,6 @@ Proof.
 Qed.
 Print Assumptions C19_dict_store_refuted.
 
-(* class L(Mixin, Exception) defined inside a function, raised as L(): Python cannot pickle L by reference,
-   L() therefore fails as well, Mixin() constructs and pickles (corpus/C19/d10_pickle_mixin_not_exception.json) *)
-Definition d10_node := mkNode true RMissing false false false false false false LMismatch
-                              [mkMro false false LMismatch true; mkMro false true LMismatch false]
-                              false true [] None None false.
-Theorem C19_pickle_mixin_refuted :
-  exists g, wf g /\ wrappable g /\ roundtrip EPickle g 0 = ONotExc.
-Proof.
-  exists [d10_node]. split; [apply wfb_iff; reflexivity |]. split; [| reflexivity].
-  intros n [E | []]. subst n. reflexivity.
-Qed.
-Print Assumptions C19_pickle_mixin_refuted.
-
 (* ---- class clause, JSON: at every node of the loaded tree - importable, constructible and reconstructible
         (`faithful`) => the original class with every argument in its predicted form; otherwise a same-named
         synthetic class, a generic Exception whose text names the class, the original class with rewritten
@@ -85,6 +72,15 @@ Theorem C19_class_json : forall e g root t,
   is_json e -> json_opaque g -> roundtrip e g root = OLoaded t -> class_json_ok e g t.
 Proof. exact class_json_thm. Qed.
 Print Assumptions C19_class_json.
+
+(* ... in the words of the statement, at the root: importable, constructible, reconstructible, every argument
+   representable (round-trips to an equal value) => the original class with equal arguments *)
+Theorem C19_class : forall e g root t,
+  is_json e -> json_opaque g -> roundtrip e g root = OLoaded t ->
+  exists n k nm a c x s, nth_error g root = Some n /\ t = LNode root k nm a c x s /\ class_spec_json e n k nm a /\
+    (faithful e n = true -> all_eq e n = true -> k = KOrig /\ a = LArgs (map (fun _ => AEq) (n_args n))).
+Proof. exact class_root_thm. Qed.
+Print Assumptions C19_class.
 
 (* the predicted forms: equal when the argument round-trips to an equal value, its text (repr, else str, else
    the "<Unrepresentable" placeholder) when it is un-encodable *)
@@ -104,7 +100,7 @@ Proof. exact all_eq_forms. Qed.
 Print Assumptions C19_equal_args.
 
 (* ---- class clause, pickle (links are not kept by Python's exception pickling): the original class when
-        Python's own pickling works, else the NEAREST class of the MRO that can be rebuilt and pickled, else the
+        Python's own pickling works, else the NEAREST exception class of the MRO (mixins skipped) that can be rebuilt and pickled, else the
         wrapper carrying the class name with ensured arguments *)
 Theorem C19_class_pickle : forall g root t,
   roundtrip EPickle g root = OLoaded t ->
